@@ -320,7 +320,8 @@ def run_classify(sql, differing, tier="thorough", kind="MERGE"):
     res = {}
     for text in [x[2] for x in cata["case"]] + [x[3] for x in cata["quote"]]:
         d = differing(text)
-        res[text] = (("status",) if d else (), {"facets": ["status"]} if d else None, ("ok", None))
+        res[text] = (("status",) if d else (), {"facets": ["status"]} if d else None, ("ok", None),
+                     tuple(("x" if d and f == "status" else "-") for f in c02.FACETS))
     ctx = _Ctx()
     c02.classify(ctx, tp, cata, res)
     return ctx.acc
@@ -336,6 +337,8 @@ a = run_classify("then delete or delete", lambda s: s.count("DELETE") == 2)
 check("classify: only a combination", sorted(a.viol), [("C02.respell.status", "stmt=MERGE,tok=<combination>")])
 a = run_classify("select ~k from ~t", lambda s: '"T"' in s, kind="SELECT")
 check("classify: quoted name", sorted(a.viol), [("C02.quoted.status", "stmt=SELECT,name=t")])
+a = run_classify("when matched then delete ~t", lambda s: "DELETE" in s)  # quotings with the rest in UPPER agree with ALL-UPPER
+check("classify: quoting is compared with its own case partner", sorted(k[0] for k in a.viol), ["C02.respell.status"])
 a = run_classify("select ~k from ~t", lambda s: False, kind="SELECT")
 check("classify: silent", (a.viol, a.counters["spellings_agreeing"] > 0), ({}, True))
 
